@@ -58,15 +58,18 @@ def load_cfg(prop):
 
 
 def load_known(prop):
-    p = os.path.join(VERIF, "known_findings.json")
-    if not os.path.exists(p):
-        return {}
-    with open(p) as f:
-        data = json.load(f)
+    """known findings: known_findings.json (assembled) plus the per-property fragments it is
+    assembled from (known_findings.d/*.json); only status == "known" entries suppress."""
     out = {}
-    for e in data.get("findings", []):
-        if e.get("property") == prop and e.get("status") == "known":
-            out[e["class"]] = e
+    paths = [os.path.join(VERIF, "known_findings.json")] + sorted(glob.glob(os.path.join(VERIF, "known_findings.d", "*.json")))
+    for p in paths:
+        if not os.path.exists(p):
+            continue
+        with open(p) as f:
+            data = json.load(f)
+        for e in data.get("findings", []):
+            if e.get("property") == prop and e.get("status") == "known":
+                out[e["class"]] = e
     return out
 
 
@@ -197,7 +200,14 @@ def build_harness(cfg, work, log):
     except OSError:
         pass
     exe = os.path.join(work, "vh")
-    cmd = ["go", "build", "-tags", "verif"] + cfg.get("go_build_flags", []) + ["-o", exe, "./cmd/" + cfg["harness"]]
+    modflags = []
+    if os.path.abspath(REPO) != "/repo":
+        # isolated run against a scratch copy of the repository (bin/mutcheck)
+        mod = open(os.path.join(hdir, "go.mod")).read().replace("=> /repo", "=> " + os.path.abspath(REPO))
+        open(os.path.join(work, "go.mod"), "w").write(mod)
+        shutil.copy(os.path.join(hdir, "go.sum"), os.path.join(work, "go.sum"))
+        modflags = ["-modfile=" + os.path.join(work, "go.mod")]
+    cmd = ["go", "build", "-tags", "verif"] + modflags + cfg.get("go_build_flags", []) + ["-o", exe, "./cmd/" + cfg["harness"]]
     rc, out = sh(cmd, cwd=hdir, env=GOENV, timeout=900)
     log.write("== go build harness rc=%d\n%s\n" % (rc, out[-4000:]))
     if rc != 0:
